@@ -27,14 +27,17 @@ open Model.X509
 def Permits (c : Cert) (name : String) : Prop :=
   c.permitted = [] ∨ ∃ p ∈ c.permitted, matchNameConstraint name p = true
 
-theorem permittedOK_of_isValid (c : Cert) (kind : Kind) (chain : List Cert) (o : Opts)
+/-- an ISSUER (`kind` = intermediate or root) that passes `isValid` permits the requested name.  (Since the repair
+    of round 11 the clause is not evaluated for the certificate being verified: hypothesis `hk`.) -/
+theorem permittedOK_of_isValid (c : Cert) (kind : Kind) (chain : List Cert) (o : Opts) (hk : kind ≠ .leaf)
     (h : isValid c kind chain o = none) : permittedOK c o = true := by
   cases hp : permittedOK c o with
   | true => rfl
   | false =>
+    have hkb : (kind != Kind.leaf) = true := by cases kind <;> first | rfl | exact absurd rfl hk
     unfold isValid at h
-    rw [hp] at h
-    simp only [Bool.not_false, if_true] at h
+    rw [hp, hkb] at h
+    simp only [Bool.not_false, Bool.and_self, if_true] at h
     repeat' split at h
     all_goals cases h
 
@@ -52,7 +55,7 @@ theorem isValid_no_name_refusal (c : Cert) (kind : Kind) (chain : List Cert) (o 
   have hp : permittedOK c o = true := by unfold permittedOK; rw [hn]
   unfold isValid
   rw [hp]
-  simp only [Bool.not_true, Bool.false_eq_true, if_false]
+  simp only [Bool.not_true, Bool.and_false, Bool.false_eq_true, if_false]
   intro h
   repeat' split at h
   all_goals cases h
@@ -90,37 +93,36 @@ theorem goodSuffix_permittedOK (roots inters : List Cert) (o : Opts) (suffix : L
       obtain ⟨_, _, hv, _⟩ := hg
       have : c = i := by simpa using hc
       subst this
-      exact permittedOK_of_isValid _ _ _ _ hv
+      exact permittedOK_of_isValid _ _ _ _ (by decide) hv
     | cons r rest =>
       obtain ⟨_, _, hv, _, hg2⟩ := hg
       rcases List.mem_cons.mp hc with rfl | hc
-      · exact permittedOK_of_isValid _ _ _ _ hv
+      · exact permittedOK_of_isValid _ _ _ _ (by decide) hv
       · exact ih (chain ++ [i]) hg2 c hc
 
 /-- `verify_name_constraints_respected`: whenever `Verify` succeeds for a requested DNS name (`name` = the
-    host without its trailing dot; the host is not an IP address), EVERY certificate of EVERY returned chain -
-    the leaf, the intermediates and the root - permits `name`: it has no permitted DNS domains or one of them
-    matches.  (The repair widens nothing: it is the requested name itself, normalised the way `VerifyHostname`
-    normalises it, that is confined to the permitted subtrees.) -/
+    host without its trailing dot; the host is not an IP address), EVERY ISSUER of EVERY returned chain - the
+    intermediates and the root, `chain.tail` - permits `name`: it has no permitted DNS domains or one of them
+    matches.  (The repair of round 10 widens nothing: it is the requested name itself, normalised the way
+    `VerifyHostname` normalises it, that is confined to the permitted subtrees.)
+    STATEMENT CHANGED in round 11: it used to say `∀ c ∈ chain` (the verified certificate included).  That was the
+    defect: the permitted domains of the verified certificate constrain what is issued BELOW it, the property asks
+    for the constraints of the issuers; the clause about the leaf is false for the repaired code
+    (`Props.C10.ex_leaf_own_constraints_accepted` in C10Leaf.lean). -/
 theorem verify_name_constraints_respected (roots inters : List Cert) (leaf : Cert) (o : Opts)
     (chains : List (List Nat)) (name : String)
     (h : verify roots inters leaf o = .ok chains) (hn : constraintName o = some name) :
     ∀ ids ∈ chains, ∃ chain : List Cert, ids = chain.map (·.id) ∧ GoodPath roots inters o leaf chain ∧
-      ∀ c ∈ chain, Permits c name := by
-  obtain ⟨_, hleaf, _, _, _⟩ := (verify_ok_iff roots inters leaf o chains).mp h
-  have hl : permittedOK leaf o = true := permittedOK_of_isValid _ _ _ _ hleaf
+      ∀ c ∈ chain.tail, Permits c name := by
   intro ids hids
   obtain ⟨chain, hch, hg, _⟩ := (verify_only_if_good_path roots inters leaf o chains h).2 ids hids
   refine ⟨chain, hch, hg, ?_⟩
   intro c hc
   apply permits_of_permittedOK c o name hn
   rcases hg with ⟨rfl, _⟩ | ⟨_, suffix, rfl, hs⟩
-  · have : c = leaf := by simpa using hc
-    rw [this]; exact hl
-  · rcases List.mem_append.mp hc with hc | hc
-    · have : c = leaf := by simpa using hc
-      rw [this]; exact hl
-    · exact goodSuffix_permittedOK roots inters o suffix [leaf] hs c hc
+  · simp at hc
+  · have hc2 : c ∈ suffix := by simpa using hc
+    exact goodSuffix_permittedOK roots inters o suffix [leaf] hs c hc2
 
 /-! ### 3. the verdict depends on the host only through `VerifyHostname` and the name without its dot -/
 
